@@ -344,6 +344,59 @@ pub fn run(ctx: &mut Ctx) {
         }
     }
 
+    // --- texts the decoders quote in their error messages: every byte length of 1-, 2-, 3- and 4-byte characters ----
+    //     (an error path that cuts or indexes the offending text at a fixed byte offset panics on a char boundary)
+    if ctx.shard == ctx.nshards.saturating_sub(1) && ctx.begin("error-text", 0) {
+        let mut rng = ctx.case_rng("error-text", 0);
+        let max = if ctx.quick() { 140 } else { 700 };
+        for ch in ["q", "\u{e9}", "\u{20ac}", "\u{1f600}"] {
+            for offset in 0..4usize {
+                let mut n = 1usize;
+                while offset + n * ch.len() <= max {
+                    let body = format!("{}{}", "Q".repeat(offset), ch.repeat(n));
+                    n += 1;
+                    ctx.eval("error-text", crate::prng::hash_str(&body), true);
+                    let zinc = [
+                        format!("1{body}"),
+                        format!("[1{body},2]"),
+                        format!("2021-01-01T00:00:00+01:00 {body}"),
+                        format!("2021-01-01T00:00:00Z {body}"),
+                        format!("\"\\q{body}\""),
+                        format!("\"\\u{body}\""),
+                        format!("{body}(\"x\")"),
+                        format!("@{body} x"),
+                        format!("^{body}"),
+                        format!("{{{body}:1}}"),
+                        format!("ver:\"{body}\"\na\n1\n"),
+                        format!("ver:\"3.0\" {body}\na\n1\n"),
+                        format!("ver:\"3.0\"\n{body}\n1\n"),
+                        format!("C({body},1)"),
+                        format!("2021-{body}"),
+                        format!("12:{body}"),
+                    ];
+                    for d in &zinc {
+                        monitor(ctx, Entry::FromStr, d.as_bytes(), "error-text", &mut rng);
+                    }
+                    let hayson = [
+                        format!("{{\"_kind\":\"{body}\"}}"),
+                        format!("{{\"_kind\":\"number\",\"val\":1,\"unit\":\"{body}\"}}"),
+                        format!("{{\"_kind\":\"number\",\"val\":\"{body}\"}}"),
+                        format!("{{\"_kind\":\"dateTime\",\"val\":\"2021-01-01T00:00:00Z\",\"tz\":\"{body}\"}}"),
+                        format!("{{\"_kind\":\"dateTime\",\"val\":\"{body}\"}}"),
+                        format!("{{\"_kind\":\"date\",\"val\":\"{body}\"}}"),
+                        format!("{{\"_kind\":\"time\",\"val\":\"{body}\"}}"),
+                        format!("{{\"_kind\":\"coord\",\"lat\":\"{body}\",\"lng\":1}}"),
+                        format!("{{\"_kind\":\"grid\",\"cols\":[{{\"name\":1}}],\"rows\":[],\"{body}\":1}}"),
+                        format!("{{\"_kind\":\"xstr\",\"type\":1,\"val\":\"{body}\"}}"),
+                    ];
+                    for d in &hayson {
+                        monitor(ctx, Entry::JsonStr, d.as_bytes(), "error-text", &mut rng);
+                    }
+                }
+            }
+        }
+    }
+
     // --- corpus slices: prefixes and mutants ---------------------------------------------------
     let corpus = corpus_slices();
     ctx.note("corpus_slices", json!(corpus.len()));
